@@ -50,7 +50,9 @@ def gen_cases(tier, seed):
                                                            "int_shift": bool(rng.integers(2))},
                           "smat": sm, "pmat": ["P", "centring"][rng.integers(2)], "model": ["random", "pair"][rng.integers(2)],
                           "full": bool(rng.integers(2)), "store_dense_svecs": bool(rng.integers(2)), "lang": ["C", "Py"][rng.integers(2)],
-                          "seed": int(rng.integers(10 ** 6)), "_cost": nu * setup.det3(sm)})
+                          "seed": int(rng.integers(10 ** 6)), "_cost": nu * setup.det3(sm),
+                          # the compiled transform has a serial and an OpenMP branch; the result must not depend on the branch or on the number of threads
+                          "use_openmp": bool(rng.integers(2)), "_threads": [1, 2, 3, 5, 7, 16][int(rng.integers(6))]})
     small = [n for n in crystals.SMALL if crystals.natoms(n) <= 6]
     for k in range(24 if tier == "quick" else 160):
         name = small[rng.integers(len(small))]
@@ -69,6 +71,7 @@ def gen_cases(tier, seed):
             multiple = True
         cases.append({"kind": "ph2ph", "crystal": {"name": name, "order": "random", "order_seed": int(rng.integers(1000))}, "smat": base, "target": target,
                       "multiple": multiple, "pmat": ["P", "centring"][rng.integers(2)], "full": bool(rng.integers(2)), "nac": [None, None, "wang", "gonze"][rng.integers(4)], "with_nac": bool(rng.integers(3) != 0),
+                      "_threads": [1, 2, 3, 5, 7, 16][int(rng.integers(6))],
                       "seed": int(rng.integers(10 ** 6)), "_cost": 3 * crystals.natoms(name) * setup.det3(target)})
     return cases
 
@@ -113,7 +116,9 @@ def run_case(c):
             fc = models.pair_fc(sc.cell, sc.scaled_positions, sc.symbols, cutoff=rng.uniform(3.0, 6.5))
         scale = np.abs(fc).max()
         ph.force_constants = np.array(fc if rng.integers(2) else fc[p2s], dtype="double", order="C")
-        d2f = DynmatToForceConstants(pr, sc, is_full_fc=c["full"])
+        d2f = DynmatToForceConstants(pr, sc, is_full_fc=c["full"], use_openmp=bool(c.get("use_openmp", False)))
+        obs["roundtrip_openmp_branch" if c.get("use_openmp") else "roundtrip_serial_branch"] = 1
+        obs["threads_%d" % c.get("_threads", 2)] = 1
         cp = d2f.commensurate_points
         ph.run_qpoints(cp, with_dynamical_matrices=True)
         d2f.dynamical_matrices = ph.get_qpoints_dict()["dynamical_matrices"]
